@@ -382,7 +382,7 @@ def count_tokens(shape):
 
 
 def random_shape(rng, lo, hi, max_opd=8):
-    binary = ['+', '-', '*', '/', '&', '&'] + list(CMPOPS)
+    binary = ['+', '-', '*', '/', '&'] * 2 + list(CMPOPS)
 
     def g_e(depth):
         parts = [g_u(depth)]
@@ -467,7 +467,7 @@ def reductions(shape):
                 out.append(txt)
         except SpecSyntax:
             pass
-    out.sort(key=lambda s: (len(s), s))
+    out.sort(key=lambda s: (len(s), s.count('+'), s))
     return out
 
 
@@ -497,15 +497,15 @@ def skeleton(shape):
 # =====================================================================================================================
 COLS = 'ABCDEFGH'
 FCOL = 8                     # formulas live in column I
-SHEETS = ['P', 'Q', 'M x', 'B', 'T', 'D']
+SHEETS = ['P', 'Q', 'M x', 'B', 'T', 'D', 'E']
 _PRIMES = [2, 3, 5, 7, 11, 13, 17, 19]
 _INTS2 = [9, 4, 25, 6, 10, 15, 8, 21]
-_MIXED = [2.5, -3, 0.5, 7, -1.25, 4, -6, 1.5]
+_MIXED = [2.5, -3, 0.123456789012, 7, -1.25, 4, -6, 1234.56789012]
 _BLANKS = [BLANK, 3, True, BLANK, 5, False, 2, BLANK]
 _DUPS = [7, 7, 3, 3, 7, 7, 3, 3]
 _TEXTS = ['ab', 'c', 'abc', 'b', 'ca', 'a', 'bc', 'd']
 _OV1 = [6, 10, 15, 4, 5, 25, 21, 8]
-_OV2 = [-2.5, 8, 0.25, -7, 1.75, 12, -0.5, 3]
+_OV2 = [-2.5, 8, 0.25, -7, 1.75, 12, -0.333333333333, 3]
 _OV3 = [4, BLANK, 2, 6, BLANK, 1, BLANK, 9]
 _TEXTS2 = ['c', 'ab', 'b', 'abc', 'a', 'ca', 'bc', 'e']
 
@@ -576,7 +576,7 @@ def constants_for(shape, tree, k):
     salt = zlib.crc32(shape.encode())
     return {'P': _PRIMES[:k], 'Q': _rot(_INTS2, salt, k), 'M x': _rot(_MIXED, salt >> 3, k),
             'B': _rot(_BLANKS, salt >> 5, k), 'T': _kinded(_wanted_kinds(tree, k, salt), salt, _TEXTS, _PRIMES),
-            'D': _rot(_DUPS, salt >> 7, k)}
+            'D': _rot(_DUPS, salt >> 7, k), 'E': [4] * k}
 
 
 def override_rounds(shape, tree, k):
@@ -588,7 +588,9 @@ def override_rounds(shape, tree, k):
     r2 = {i: v for i, v in enumerate(_rot(_OV2, salt >> 4, k)) if i % 2 == 0}
     r3 = dict(enumerate(_rot(_OV3, salt >> 6, k)))
     r4 = dict(enumerate(_kinded(want, salt + 1, _TEXTS2, _INTS2)))
-    return [('P', r1), ('P', r2), ('B', r3), ('T', r4), ('Q', {})]
+    r5 = dict(enumerate(_kinded(_wanted_kinds(tree, k, salt + 2), salt + 2, _TEXTS, _OV1)))
+    r6 = dict(enumerate(_kinded(_wanted_kinds(tree, k, salt + 3), salt + 4, _TEXTS2, _PRIMES)))
+    return [('P', r1), ('P', r2), ('B', r3), ('T', r4), ('T', r5), ('T', r6), ('Q', {})]
 
 
 # =====================================================================================================================
@@ -617,6 +619,8 @@ def _plain(v):
 def _run_rows(items, rounds=True):
     """items: [(shape, row)] with distinct rows -> {shape: result}; raises _Rejected when translation/loading fails"""
     from excel2pycl import Cell
+    if not items:
+        return {}
     parsed = {}
     sheets = [{'title': t, 'cells': []} for t in SHEETS]
     for shape, row in items:
@@ -733,6 +737,13 @@ def _hint_rejected(formula, row):
 
 
 def _batch_worker(args):
+    try:
+        return _batch_worker_(args)
+    except StopIteration as e:               # would silently end the parent's iteration over the pool results
+        raise RuntimeError('StopIteration in a worker') from e
+
+
+def _batch_worker_(args):
     shapes, first_row = args
     items = [(s, first_row + i) for i, s in enumerate(shapes)]
     alone = [it for it in items if _hint_rejected(instantiate(*it), it[1])]
@@ -768,16 +779,30 @@ def _close_pool():
         _POOL = None
 
 
+def _pmap(fn, jobs):
+    """unordered parallel map that cannot lose jobs silently (a StopIteration escaping from a worker would end a plain
+    `for ... in imap_unordered` without an error)"""
+    jobs = list(jobs)
+    if len(jobs) <= 1:
+        return [fn(j) for j in jobs]
+    it = _pool().imap_unordered(fn, jobs)
+    out = []
+    while True:
+        try:
+            out.append(next(it))
+        except StopIteration:
+            break
+    if len(out) != len(jobs):
+        raise RuntimeError(f'{len(jobs) - len(out)} of {len(jobs)} parallel jobs were lost ({fn.__name__})')
+    return out
+
+
 def run_shapes(shapes, batch=120):
     """{shape: result} for many shapes, 16 processes, `batch` formulas per workbook (rows 1..batch, so rows > 100 occur)"""
     shapes = list(dict.fromkeys(shapes))
     jobs = [(shapes[i:i + batch], 1) for i in range(0, len(shapes), batch)]
     out = {}
-    if len(jobs) <= 1:
-        for j in jobs:
-            out.update(_batch_worker(j))
-        return out
-    for res in _pool().imap_unordered(_batch_worker, jobs):
+    for res in _pmap(_batch_worker, jobs):
         out.update(res)
     return out
 
@@ -826,11 +851,13 @@ def _failures_from(results, keys, limit=25):
     by_key = {}
     for s, full in keys.items():
         key, minimal = full.split('|', 1)
-        by_key.setdefault(key, []).append((s != minimal, len(s), s, minimal))
+        by_key.setdefault(key, []).append((s != minimal, len(s), s.count('+'), s, minimal))
     fails = []
     for key in sorted(by_key):
         cands = sorted(by_key[key])
-        _, _, s, minimal = cands[0]
+        _, _, _, s, minimal = cands[0]
+        if minimal in results and results[minimal]['status'] in ('bad', 'reject'):
+            s = minimal
         r = results[s]
         d = r['detail']
         what = (f"{d['formula']} [{d['mode']}, sheet {d['sheet']}, operands {d['operands']}] -> {d['observed']}, "
@@ -871,10 +898,11 @@ def check_grouping_exhaustive(max_tokens):
     return {'name': 'C01.monitor.grouping_exhaustive',
             'bound': f'every token sequence of the operator grammar (operand, brackets, unary - and +, postfix %, + - * / &, '
                      f'comparison <) with <= {max_tokens} tokens: {n_scope} formulas, operands = distinct cells of the '
-                     f'formula\'s row; each on 6 sheets holding the same formula text with different constants (primes; '
-                     f'other integers; floats/negatives; blanks and booleans; texts where the formula allows; duplicates) and '
-                     f'after 4 override batches on one re-used Executor (all operands; every second operand with '
-                     f'floats/negatives on top; blank<->number swap incl. blank by override; texts) plus a re-read of an '
+                     f'formula\'s row; each on 7 sheets holding the same formula text with different constants (primes; '
+                     f'other integers; floats/negatives with 12 digits; blanks and booleans; texts where the formula allows; '
+                     f'duplicates; all equal) and '
+                     f'after 6 override batches on one re-used Executor (all operands; every second operand with '
+                     f'floats/negatives on top; blank<->number swap incl. blank by override; 3 x texts/booleans/integers) plus a re-read of an '
                      f'untouched sheet; 120 formulas per workbook (rows 1..120)',
             'rule': 'one evaluation = one (formula, sheet, constants-or-override-state) whose get_cell value is compared with '
                     'the reference evaluator (numbers within 1e-12 relative to the largest intermediate, texts and booleans '
@@ -978,6 +1006,20 @@ def _literal_worker(texts):
     return {t: r['=' + t] for t in texts}
 
 
+def _abstract(tree):
+    """the shape of a formula: every operand replaced by @"""
+    k = tree[0]
+    if k in ('num', 'str', 'bool', 'ref', 'opd'):
+        return ('opd', 0)
+    if k == 'par':
+        return ('par', _abstract(tree[1]))
+    if k == 'un':
+        return ('un', tree[1], _abstract(tree[2]))
+    if k == 'pct':
+        return ('pct', _abstract(tree[1]))
+    return ('bin', tree[1], _abstract(tree[2]), _abstract(tree[3]))
+
+
 def _literal_expected(text):
     return float(text)        # CPython's correctly rounded conversion = the double nearest to the decimal text
 
@@ -1003,7 +1045,7 @@ def _literal_key(text, got):
     return 'C01.literal.decimal_value'
 
 
-def check_literals(tier, seed):
+def check_literals(tier, seed, known=None):
     t0 = time.time()
     rng = random.Random(seed * 104729 + 3)
     texts = []
@@ -1038,7 +1080,7 @@ def check_literals(tier, seed):
     texts = list(dict.fromkeys(texts))
     chunks = [texts[i:i + 1500] for i in range(0, len(texts), 1500)]
     got = {}
-    for res in (_pool().imap_unordered(_literal_worker, chunks) if len(chunks) > 1 else map(_literal_worker, chunks)):
+    for res in _pmap(_literal_worker, chunks):
         got.update(res)
     fails, seen = [], {}
     for t in texts:
@@ -1060,7 +1102,14 @@ def check_literals(tier, seed):
     got2 = _literal_worker(ctx)
     n_ctx = 0
     ctx_seen = {}
+    known = dict(known or {})
+    shape_of = {t: render(_abstract(parse(t))) for t in ctx}
+    missing = sorted({sh for sh in shape_of.values() if sh not in known})
+    if missing:
+        known.update(run_shapes(missing))
     for t in ctx:
+        if known[shape_of[t]]['status'] in ('bad', 'reject'):
+            continue                                   # this operator mix is already reported by the grouping checks
         tree = parse(t)
         try:
             exp = spec_eval(tree)
@@ -1087,7 +1136,7 @@ def check_literals(tier, seed):
                      f'e-3..e3; {n_samp} sampled literals with integer part < 3000, 3..5 fractional digits, 20% with an '
                      f'exponent; {len(specials)} special forms (0.1+0.2 digits, 17+ digit texts, 2^53+1, extreme exponents, '
                      f'leading zeros, Excel\'s own E+20 / E-05 spelling); {len(ctx)} formulas with two literals around every '
-                     f'operator (adjacency with - % e)',
+                     f'operator (adjacency with - % e); operator mixes that the grouping checks already report are left out',
             'rule': 'one evaluation = one literal whose get_cell value must equal float(text) exactly (an int result must '
                     'be that same number), or one two-literal formula compared with the reference evaluator',
             'exhaustive': False, 'evaluations': len(texts) + n_ctx, 'distinct_nontrivial': len(texts) + n_ctx,
@@ -1101,7 +1150,7 @@ def check_blank():
     a cell whose constant was overridden by a blank, a blank on another sheet"""
     from excel2pycl import Cell
     t0 = time.time()
-    forms = ['B1+{x}', '{x}+B1', 'B1-{x}', '{x}-B1', 'B1*{x}', '{x}*B1', '{x}/B1', '-{x}', '+{x}', '{x}%', '-{x}+B1', '{x}%+B1',
+    forms = ['B1+{x}', '{x}+B1', 'B1-{x}', '{x}-B1', 'B1*{x}', '{x}*B1', '{x}/B1', '-{x}', '+{x}', '{x}%', 'B1+-{x}', '(-{x})+B1', '{x}%+B1',
              '({x})+B1', '{x}+{x}', '{x}*{x}+B1', 'B1-{x}-{x}', '{x}', '({x})', 'B1+{x}*3', '2*{x}-B1', '{x}-1', '1-{x}',
              'B1*(1-{x})', 'B1*(1+{x}%)']
     blanks = {'inside': 'C2', 'row_gt_100': 'B120', 'beyond_col': 'AB1', 'beyond_row': 'A500', 'far': 'AAA1001',
@@ -1382,7 +1431,7 @@ def check_sources(tier, known, seed):
     shapes = [s for n in sorted(E) for s in E[n] if known.get(s, {}).get('status') == 'ok']
     chunks = [(shapes[i:i + 40], tier) for i in range(0, len(shapes), 40)]
     fails, evals = {}, 0
-    for f, e in _pool().imap_unordered(_source_worker, chunks):
+    for f, e in _pmap(_source_worker, chunks):
         evals += e
         for k, v in f.items():
             fails.setdefault(k, []).extend(v)
@@ -1390,7 +1439,7 @@ def check_sources(tier, known, seed):
     ent = list(shapes)
     rng.shuffle(ent)
     ent = ent[:96 if tier == 'quick' else 640]
-    for f, e in _pool().imap_unordered(_entry_worker, [(ent[i:i + 8],) for i in range(0, len(ent), 8)]):
+    for f, e in _pmap(_entry_worker, [(ent[i:i + 8],) for i in range(0, len(ent), 8)]):
         evals += e
         for k, v in f.items():
             fails.setdefault('C01.source.entry_point', []).extend(v)
@@ -1440,7 +1489,7 @@ def run(tier='quick', seed=0):
         checks.append(c)
         c, results = check_grouping_sampled(12000 if thorough else 400, 10 if thorough else 7, 14, seed, results)
         checks.append(c)
-        checks.append(check_literals(tier, seed))
+        checks.append(check_literals(tier, seed, results))
         checks.append(check_blank())
         checks.append(check_sources(tier, results, seed))
     return {'checks': checks}
